@@ -6,7 +6,7 @@ package appencryption
 // ---- well-formedness of the objects the SDK builds (constructor-established; assumed of entry-point receivers) ----
 
 //@ spec fn wfE(e *envelopeEncryption) bool = e != nil && e.partition != nil && e.Metastore != nil && e.KMS != nil && e.Policy != nil && e.Crypto != nil && e.SecretFactory != nil && e.skCache != nil && e.ikCache != nil
-//@ spec fn wfCK(k *cachedCryptoKey) bool = k != nil && k.CryptoKey != nil && k.refs != nil && k.CryptoKey.secret != nil
+//@ spec fn wfCK(k *cachedCryptoKey) bool = k != nil && k.CryptoKey != nil && k.refs != nil && k.CryptoKey.secret != nil && valid(k) && valid(k.CryptoKey) && valid(k.CryptoKey.secret)
 
 // package-level metrics are initialised once, before any call
 //@ axiom [metrics-initialised] decryptTimer != nil && encryptTimer != nil
@@ -59,7 +59,7 @@ package appencryption
 //@   ensures [C09:only-the-returned-key-s-secret-is-new] forall s securememory.Secret :: live(s) && !old(live(s)) ==> err == nil && s == result.secret
 //@   ensures [C09:nothing-released] forall s securememory.Secret :: old(live(s)) ==> live(s)
 //@   ensures (err == nil) == (result != nil)
-//@   ensures err == nil ==> result.created == old(ekr.Created) && result.secret != nil
+//@   ensures err == nil ==> result.created == old(ekr.Created) && result.secret != nil && valid(result.secret)
 //@   ensures [C10:kms-plaintext-wiped] forall i int :: 0 <= i && i < len(ret(DecryptKey, 1, 0)) ==> ret(DecryptKey, 1, 0)[i] == 0
 
 //@ func (*envelopeEncryption).intermediateKeyFromEKR
@@ -69,7 +69,7 @@ package appencryption
 //@   modifies ext_calls, ms, owed, live
 //@   ensures msGrows(old(ms), ms)
 //@   ensures (err == nil) == (result != nil)
-//@   ensures err == nil ==> result.created == old(ekr.Created) && result.secret != nil
+//@   ensures err == nil ==> result.created == old(ekr.Created) && result.secret != nil && valid(result.secret)
 //@   ensures [C10:ik-plaintext-wiped] forall i int :: 0 <= i && i < len(ret(WithBytesFunc, 1, 0)) ==> ret(WithBytesFunc, 1, 0)[i] == 0
 
 // ---- key caches (interface contract) ----
@@ -83,7 +83,7 @@ package appencryption
 //@   ensures [C09:loader-releases-what-it-takes] forall k *cachedCryptoKey :: owed(k) == old(owed(k))
 //@   ensures msGrows(old(ms), ms)
 //@   ensures (err == nil) == (result != nil)
-//@   ensures err == nil ==> result.secret != nil
+//@   ensures err == nil ==> result.secret != nil && valid(result.secret)
 //@   ensures err == nil && loaderFor(this, meta.ID) ==> ms[meta.ID][result.created]
 //@   ensures err == nil && loaderExact(this) ==> result.created == meta.Created
 
@@ -219,7 +219,7 @@ package appencryption
 //@   modifies ext_calls, ms, owed, live
 //@   ensures [C02:ms-only-grows] msGrows(old(ms), ms)
 //@   ensures [C02:error-returns-nil] (err == nil) == (result != nil)
-//@   ensures [C02,C14:backed] err == nil ==> result.secret != nil && ms[meta.ID][result.created]
+//@   ensures [C02,C14:backed] err == nil ==> result.secret != nil && valid(result.secret) && ms[meta.ID][result.created]
 //@   ensures [C02:key-carries-requested-stamp] err == nil ==> result.created == meta.Created
 
 //@ func (*envelopeEncryption).loadSystemKey
@@ -232,7 +232,7 @@ package appencryption
 //@   ensures [C09:nothing-released] forall s securememory.Secret :: old(live(s)) ==> live(s)
 //@   ensures [C02:ms-only-grows] msGrows(old(ms), ms)
 //@   ensures [C02:error-returns-nil] (err == nil) == (result != nil)
-//@   ensures [C02,C14:backed] err == nil ==> result.secret != nil && ms[meta.ID][result.created]
+//@   ensures [C02,C14:backed] err == nil ==> result.secret != nil && valid(result.secret) && ms[meta.ID][result.created]
 //@   ensures [C02:key-carries-requested-stamp] err == nil ==> result.created == meta.Created
 
 //@ func decryptRow
@@ -285,7 +285,7 @@ package appencryption
 //@   ensures [C09:nothing-released] forall s securememory.Secret :: old(live(s)) ==> live(s)
 //@   ensures [C02:ms-only-grows] msGrows(old(ms), ms)
 //@   ensures [C02:error-returns-nil] (err == nil) == (result != nil)
-//@   ensures [C02,C14:backed] err == nil ==> result.secret != nil && (id == sysid(e.partition) ==> ms[id][result.created])
+//@   ensures [C02,C14:backed] err == nil ==> result.secret != nil && valid(result.secret) && (id == sysid(e.partition) ==> ms[id][result.created])
 
 //@ func (*envelopeEncryption).createIntermediateKey$1
 //@   facet C02, C14
@@ -301,7 +301,7 @@ package appencryption
 //@   modifies ext_calls, ms, owed, live
 //@   ensures [C02:ms-only-grows] msGrows(old(ms), ms)
 //@   ensures [C02:error-returns-nil] (err == nil) == (result != nil)
-//@   ensures [C02,C14:backed] err == nil ==> result.secret != nil && ms[ikidOf(e.partition)][result.created]
+//@   ensures [C02,C14:backed] err == nil ==> result.secret != nil && valid(result.secret) && ms[ikidOf(e.partition)][result.created]
 
 //@ func (*envelopeEncryption).loadLatestOrCreateIntermediateKey
 //@   facet C02, C14, C09
@@ -310,7 +310,7 @@ package appencryption
 //@   modifies ext_calls, ms, owed, live
 //@   ensures [C02:ms-only-grows] msGrows(old(ms), ms)
 //@   ensures [C02:error-returns-nil] (err == nil) == (result != nil)
-//@   ensures [C02,C14:backed] err == nil ==> result.secret != nil && (id == ikidOf(e.partition) ==> ms[id][result.created])
+//@   ensures [C02,C14:backed] err == nil ==> result.secret != nil && valid(result.secret) && (id == ikidOf(e.partition) ==> ms[id][result.created])
 
 //@ func (*envelopeEncryption).EncryptPayload$1
 //@   facet C02, C14
@@ -393,7 +393,7 @@ package appencryption
 //@   guards latest
 //@   havocs cdom(this.keys), cval(this.keys)
 //@   invariant [wired] this.keys != nil && this.latest != nil && this.policy != nil
-//@   invariant [entries-well-formed] forall k string :: cdom(this.keys)[k] ==> wfCK(cval(this.keys)[k].key) && valid(cval(this.keys)[k].key) && valid(cval(this.keys)[k].key.CryptoKey)
+//@   invariant [entries-well-formed] forall k string :: cdom(this.keys)[k] ==> wfCK(cval(this.keys)[k].key)
 //@   invariant [entries-backed] forall id string, c int64 :: cdom(this.keys)[ck(id, c)] ==> ms[id][cval(this.keys)[ck(id, c)].key.CryptoKey.created]
 //@   invariant [entries-filed-under-their-stamp] forall id string, c int64 :: cdom(this.keys)[ck(id, c)] ==> cval(this.keys)[ck(id, c)].key.CryptoKey.created == c
 //@   invariant [latest-alias-keeps-id] forall id string :: ck(id, 0) in this.latest ==> this.latest[ck(id, 0)].ID == id
